@@ -225,7 +225,12 @@ func rulesC04(c *Ctx) {
 }
 
 func c04Depth(c *Ctx) {
-	const rule = "C04.depth"
+	depthRule(c, "C04.depth", "the proof the tree itself produces for the deepest key does not verify, and a remote reader cannot read that key")
+}
+
+// depthRule: the verifier's nesting bound covers every tree Insert accepts (shared: C04 — completeness of proofs; C12 —
+// checkpoint chunks are proofs and are verified with the same bound when they are restored).
+func depthRule(c *Ctx, rule, consequence string) {
 	bound, ok := c.ConstInt("storage/mkvs/syncer", "maxProofDepth")
 	if !ok {
 		c.Fail(rule, "storage/mkvs/syncer.maxProofDepth", "", "the verifier's depth bound constant was not found (unresolved anchor)")
@@ -264,7 +269,7 @@ func c04Depth(c *Ctx) {
 			}
 			if bo, ok := ifi.Cond.(*ssa.BinOp); ok {
 				s := vstr(bo)
-				if strings.Contains(s, "len(param:key)") {
+				if strings.Contains(s, "builtin.len(") && strings.Contains(s, "param:key") {
 					if k, isK := constInt(bo.Y); isK && k > 0 && k*8 < maxBits {
 						maxBits = k * 8
 					}
@@ -280,7 +285,7 @@ func c04Depth(c *Ctx) {
 		}
 	}
 	c.Check(bound >= maxBits+1 || limited, rule, "storage/mkvs/syncer.maxProofDepth:covers the depth of every tree that Insert accepts", pos,
-		"the verifier's depth bound covers every honest tree", "the verifier rejects proofs nested deeper than "+itoa(int(bound))+" levels, but Insert accepts keys of up to "+itoa(int(maxBits))+" bits and an honest tree nests one level per key that is a proper prefix of the next: for a tree holding more than "+itoa(int(bound))+" nested-prefix keys the proof the tree itself produces for the deepest key does not verify, and a remote reader cannot read that key")
+		"the verifier's depth bound covers every honest tree", "the verifier rejects proofs nested deeper than "+itoa(int(bound))+" levels, but Insert accepts keys of up to "+itoa(int(maxBits))+" bits and an honest tree nests one level per key that is a proper prefix of the next: for a tree holding more than "+itoa(int(bound))+" nested-prefix keys "+consequence)
 }
 
 func rulesC12(c *Ctx) {
@@ -292,6 +297,7 @@ func rulesC12(c *Ctx) {
 	c12KeyFormats(c)
 	rulesC12Round2(c)
 	c12Round3(c)
+	depthRule(c, "C12.verify", "a checkpoint is created without error but the restorer rejects every chunk that reaches below that depth (max proof depth exceeded): the checkpoint can never be restored")
 	const rc = "storage/mkvs/checkpoint.restoreChunk"
 	if fn := c.needFn(rule, rc); fn != nil {
 		imp := union("import{NewBatch,doRestoreChunk,Commit}", CallsTo(fn, "", "storage/mkvs/db/api.(NodeDB).NewBatch", ""), CallsTo(fn, "", "storage/mkvs/checkpoint.doRestoreChunk", ""), CallsTo(fn, "", "storage/mkvs/db/api.(Batch).Commit", ""))
